@@ -229,18 +229,8 @@ func (rule AddOption) AsRewriteRule(pkg string) (builder.RewriteRule, error) {
 		return nil, err
 	}
 
-	for _, arg := range rule.Option.Arguments {
-		if err := arg.Type.Validate(); err != nil {
-			return nil, fmt.Errorf("add_option: argument '%s': %w", arg.Name, err)
-		}
-	}
-	for _, assignment := range rule.Option.Assignments {
-		if assignment.Value.Argument == nil {
-			continue
-		}
-		if err := assignment.Value.Argument.Type.Validate(); err != nil {
-			return nil, fmt.Errorf("add_option: argument '%s': %w", assignment.Value.Argument.Name, err)
-		}
+	if err := rule.Option.Validate(); err != nil {
+		return nil, fmt.Errorf("add_option: %w", err)
 	}
 
 	return builder.AddOption(selector, rule.Option), nil
@@ -257,10 +247,8 @@ func (rule AddFactory) AsRewriteRule(pkg string) (builder.RewriteRule, error) {
 		return nil, err
 	}
 
-	for _, arg := range rule.Factory.Args {
-		if err := arg.Type.Validate(); err != nil {
-			return nil, fmt.Errorf("add_factory: argument '%s': %w", arg.Name, err)
-		}
+	if err := rule.Factory.Validate(); err != nil {
+		return nil, fmt.Errorf("add_factory: %w", err)
 	}
 
 	return builder.AddFactory(selector, rule.Factory), nil
